@@ -395,7 +395,7 @@ func runBatch(b batch, bi int) {
 	if b.synced {
 		sy = "1"
 	}
-	for cur < b.to {
+	for cur < b.to && !abortRun.Load() {
 		attempt++
 		j := filepath.Join(tmp, fmt.Sprintf("b%d-%d.j", bi, attempt))
 		r := filepath.Join(tmp, fmt.Sprintf("b%d-%d.r", bi, attempt))
@@ -483,11 +483,37 @@ func runBatch(b batch, bi int) {
 	}
 }
 
-// judgeHang: a hang is a violation only when it reproduces 3/3 alone (with twice the time) with the
-// same handler on the stack; otherwise it is inconclusive.
+// runBlockedOnMutex says whether the goroutine executing Run is parked in a mutex Lock.
+func runBlockedOnMutex(stacks string) bool {
+	for _, blk := range strings.Split(stacks, "\n\n") {
+		if strings.Contains(blk, "(*OneConnection).Run(") {
+			return strings.Contains(blk, "sync.(*Mutex).Lock") || strings.Contains(blk, "sync.(*Mutex).lockSlow") || strings.Contains(blk, "sync.(*RWMutex)")
+		}
+	}
+	return false
+}
+
+var hangSuspects atomic.Int32
+var abortRun atomic.Bool
+
+// judgeHang: a script that does not finish is a violation only when it reproduces 3/3 alone (with
+// twice the time) at the same place; otherwise it is inconclusive. Run parked on a mutex that nobody
+// releases is reported as deadlock:<locks held>/<handler>, Run spinning as hang/<handler>@<callee>.
 func judgeHang(r *scriptResult, w *witness, synced bool) {
 	site := hangSite(r.HangStack)
-	if hangConfirmed("hang/" + site) {
+	kind, key := "hang", "hang/"+site
+	if runBlockedOnMutex(r.HangStack) {
+		held := append([]string{}, r.Leaks...)
+		sort.Strings(held)
+		kind = "deadlock:" + strings.Join(held, "+")
+		key = kind // one confirmation per set of held locks, whatever handler waits for them
+	}
+	class := kind + "/" + site
+	if n := hangSuspects.Add(1); n > 40 && run.Violations() > 0 && !abortRun.Load() {
+		abortRun.Store(true)
+		run.Inconclusive("more than 40 scripts ran into the watchdog and violations are already established: the remaining batches are not run")
+	}
+	if hangConfirmed(key) {
 		run.Count("net.hang_suspects_at_a_site_already_confirmed_in_this_run", 1)
 		return
 	}
@@ -505,8 +531,8 @@ func judgeHang(r *scriptResult, w *witness, synced bool) {
 	rb, _ := json.Marshal(r)
 	w.Result = rb
 	if same == 3 {
-		markHangConfirmed("hang/" + site)
-		run.Violation("hang/"+site, fmt.Sprintf("script does not finish within %v (and not within %v in 3/3 runs alone), Run is inside %s; last message of the script: %q", scriptWdog, 2*scriptWdog, site, lastOf(r)), w)
+		markHangConfirmed(key)
+		run.Violation(class, fmt.Sprintf("script does not finish within %v (and not within %v in 3/3 runs alone), Run is inside %s, mutexes held at that time: %v; last message of the script: %q", scriptWdog, 2*scriptWdog, site, r.Leaks, lastOf(r)), w)
 	} else {
 		run.Inconclusive("script %d exceeded the watchdog once (inside %s) but reproduced only %d/3 times", r.Idx, site, same)
 	}
